@@ -120,7 +120,7 @@ func lexSQL(src string) ([]token, error) {
 			out = append(out, token{tIdent, src[i:j]})
 			i = j
 		default:
-			ops := []string{"->>", "||", "@>", "<@", "->", "::", "<=", ">=", "<>", "!=", "=", "<", ">", "+", "-", "*", "/", "(", ")", ",", ".", ";"}
+			ops := []string{"->>", "||", "@>", "<@", "@@", "->", "::", "<=", ">=", "<>", "!=", "=", "<", ">", "+", "-", "*", "/", "(", ")", ",", ".", ";"}
 			matched := false
 			for _, op := range ops {
 				if strings.HasPrefix(src[i:], op) {
@@ -843,7 +843,7 @@ func (p *sqlParser) cmpExpr() sqlExpr {
 // "other" operators of PostgreSQL (|| @> <@ -> ->>) bind tighter than comparison and looser than + -
 func (p *sqlParser) otherOpExpr() sqlExpr {
 	l := p.addExpr()
-	for p.isOp("||") || p.isOp("@>") || p.isOp("<@") || p.isOp("->") || p.isOp("->>") {
+	for p.isOp("||") || p.isOp("@>") || p.isOp("<@") || p.isOp("@@") || p.isOp("->") || p.isOp("->>") {
 		op := p.next().s
 		l = &eBin{op: op, l: l, r: p.addExpr()}
 	}
